@@ -77,8 +77,8 @@ PIPES = {"segseg": ec.pipe("segseg"), "segsegx": big_pipe}
 
 def run(ctx, verdict):
     ec.family(ctx, verdict, "segseg")
-    cases = [c for c in ec.seg_pairs(ctx.seed, 132 if ctx.quick else 3000) if c["seg"][2] != c["seg"][3]]
-    cases += screened(ctx, 6000 if ctx.quick else 60000, 24 if ctx.quick else 200)
+    cases = [c for c in ec.seg_pairs(ctx.seed, 132 if ctx.quick else 900) if c["seg"][2] != c["seg"][3]]
+    cases += screened(ctx, 6000 if ctx.quick else 60000, 24 if ctx.quick else 150)
     vlib.note_cases(ctx, cases)
     big_pipe(ctx, verdict, cases)
     ctx.coverage_extra["big_tier"] = dict(pairs=len(cases), rows=8 * len(cases), grids=[1 << 10, 1 << 16, 1 << 20],
